@@ -1337,6 +1337,11 @@ func (p *scionPacketProcessor) validateTransitUnderlaySrc() disposition {
 		// Drop
 		return errorDiscard("error", errInvalidSrcAddrForTransit)
 	}
+	if ingressLink.Scope() != Sibling {
+		// The hop's ingress interface is not owned by a sibling router (e.g. ingress 0 resolves to
+		// the internal link itself): this is not transit traffic handed over by a sibling. Drop.
+		return errorDiscard("error", errInvalidSrcAddrForTransit)
+	}
 	return pForward
 }
 
